@@ -1264,7 +1264,7 @@ func (a *analysis) oracleC15() verdict {
 	rr.mu.Unlock()
 	// what the debug output has to say about: the text of the error a render
 	// returned. Anything else written there is the library's own business.
-	scripted := []string{errFill.Error(), io.EOF.Error(), io.ErrUnexpectedEOF.Error(), errOut.Error(), unix.ENOTTY.Error()}
+	scripted := []string{errFill.Error(), io.EOF.Error(), io.ErrUnexpectedEOF.Error(), errOut.Error(), unix.ENOTTY.Error(), io.ErrShortWrite.Error()}
 	if !a.errCycle {
 		for _, t := range scripted {
 			if strings.Contains(dbg, t) {
@@ -1288,6 +1288,9 @@ func (a *analysis) oracleC15() verdict {
 	}
 	if sc.OutFailAt > 0 && site == "output" {
 		want = errOut.Error()
+		if sc.Seed%3 == 1 && sc.Seed%3 != 0 {
+			want = io.ErrShortWrite.Error() // see memWriter.Write
+		}
 	}
 	if site == "termsize" {
 		want = unix.ENOTTY.Error() // the size query on what has become /dev/null
